@@ -66,8 +66,13 @@ func VerifH15p() {
 		res = verifExecInstant(e, store, qs, start)
 	}
 	sym.Assert("C17/pipeline/queriers-closed-exactly-once", store.AllClosedOnce())
-	faultFired := sym.Counter("faults-fired") > 0 || (iterFault && len(ser[0].S) > 0 && len(ser[0].Iters) > 0)
-	if iterFault && faultFired {
+	iterFired := false
+	for _, it := range ser[0].Iters {
+		if it.Fired {
+			iterFired = true
+		}
+	}
+	if iterFault && iterFired {
 		sym.Assert("C15/pipeline/iterator-error-surfaces", res.Err != nil)
 	}
 	if store.FaultMode == 1 && sym.Counter("faults-fired") > 0 {
@@ -77,7 +82,7 @@ func VerifH15p() {
 	if res.Err != nil && (store.FaultMode == 1 || iterFault) {
 		sym.Assert("C15/pipeline/error-wraps-storage-error", errors.Is(res.Err, errVerifStore))
 	}
-	if iterMode == 2 && len(ser[0].Iters) > 0 {
+	if iterMode == 2 && iterFired {
 		sym.Known("KF-C13-D18a", true)
 		sym.Assert("C13/pipeline/iterator-panic-becomes-error", res.Err != nil)
 	}
